@@ -47,8 +47,13 @@ func pick(q, th int) int {
 }
 
 func TestMain(m *testing.M) {
+	if os.Getenv("VERIF_TWIN_SERVER") == "1" {
+		twinServe()
+		os.Exit(0)
+	}
 	installHooks()
 	code := m.Run()
+	twinStop()
 	stat.Dump()
 	os.Exit(code)
 }
